@@ -36,13 +36,9 @@ func (z *zzIso) addr(i int) net.Addr {
 }
 
 func zzMkSess(n *RemoteNode, lseid, cp uint64) *Sess {
-	s := &Sess{
-		rnode: n, LocalID: lseid, RemoteID: cp,
-		PDRIDs: make(map[uint16]*PDRInfo), FARIDs: make(map[uint32]struct{}), QERIDs: make(map[uint32]struct{}),
-		URRIDs: make(map[uint32]*URRInfo), BARIDs: make(map[uint8]struct{}), q: make(map[uint16]chan []byte), qlen: 2,
-		log: n.log,
-	}
-	n.sess[lseid] = struct{}{}
+	// the real constructor: the table is empty before, so the ids come out as 1, 2 in call order
+	s := n.NewSess(cp)
+	zzAssert("C05.setup.seid", s.LocalID == lseid)
 	return s
 }
 
@@ -74,7 +70,6 @@ func zzMkIso() *zzIso {
 	z.cpA = nondetU64("a-cpseid")
 	z.b = zzMkSess(z.nodes[z.nb], 1, z.cpB)
 	z.a = zzMkSess(z.nodes[z.na], 2, z.cpA)
-	z.s.lnode.sess = []*Sess{z.b, z.a}
 	z.addRules(z.b, [5]uint32{1, 1, 1, 1, 1}, 1)
 	z.b.Push(1, []byte{0xb0, 0xb1})
 	// A's ids: symbolic, allowed to coincide with B's
@@ -169,7 +164,6 @@ func zzC05Delete() {
 	_, ok := z.s.PopBufPkt(2, uint16(z.idA[zzPDR]))
 	zzAssert("C05.reuse.no-old-packet", !ok)
 	// the new session's queue for that PDR id is its own: a packet it buffers comes back alone
-	n.qlen = z.a.qlen // same queue capacity as the sessions this harness builds by hand
 	n.Push(uint16(z.idA[zzPDR]), []byte{0xc0, 0xc1, 0xc2})
 	zzAssert("C05.reuse.queue-holds-own-packet-only", n.Len(uint16(z.idA[zzPDR])) == 1)
 	pkt, ok := z.s.PopBufPkt(2, uint16(z.idA[zzPDR]))
